@@ -1860,6 +1860,9 @@ class UserSpaceImpl(*_user_space_impl_base):
             "own_refs": self.on_del_ref
         }
 
+        # Delete ItemSpaces holding dynamic copies of the members re-derived
+        self.clear_subs_rootitems()
+
         selfdict = getattr(self, attr)
         basedict = CustomChainMap(*[getattr(b, attr) for b in bases])
         selfkeys = list(selfdict)
